@@ -19,27 +19,44 @@ CHECK_CORR = 'check_corr'
 CHECK_SPEC = 'check_spec'
 SHARD = 120
 RULE = ('prog cases: random template trees over atoms (Constant/Table/Point/Function PT), AtomicMultiChannelPT, '
-        'ArithmeticAtomicPT, SequencePT, RepetitionPT, ForLoopPT, MappingPT (parameter + measurement renaming, incl. '
-        'dropping), TimeReversalPT, to_single_waveform members, ParallelChannelPT / ArithmeticPT pass-through nodes; '
-        'declarations on every node that accepts them; dyadic begins / lengths / durations, parameterised and '
-        'loop-index dependent; counts 0/1/n, negative and non-integer counts, empty / negative-step ranges, '
-        'zero-length windows, zero-duration atoms; top-level measurement mapping identity / renaming / merging / '
-        'dropping / default.  Observation = duration + multiset of (name, begin, length) from '
-        'Loop.get_measurement_windows(), again after cleanup().  loop cases: hand-built Loop trees (windows on '
-        'every node incl. repeated leaves) observed through get_measurement_windows, reverse_inplace, cleanup.  '
-        'Thorough tier adds an exhaustive enumeration of small trees.  Non-trivial = at least two reported windows '
-        'under at least two nested composite nodes (prog) / two nested loops (loop).')
+        'ArithmeticAtomicPT, SequencePT, RepetitionPT, ForLoopPT, MappingPT (parameter + measurement renaming incl. '
+        'dropping, parameter constraints that hold / depend on the assignment / fail), TimeReversalPT, '
+        'to_single_waveform members, ParallelChannelPT / ArithmeticPT pass-through nodes; declarations on every node '
+        'that accepts them; dyadic begins / lengths / durations, parameterised and loop-index dependent; counts 0/1/n, '
+        'negative and non-integer counts, empty / negative-step / step-0 / non-integer ranges, zero-length windows, '
+        'zero-duration atoms; top-level measurement mapping identity / renaming / merging / dropping / default.  '
+        'Observation = exception class | None | duration + multiset of (name, begin, length) from '
+        'Loop.get_measurement_windows(), again after cleanup(), plus plotting._render_loop and the public '
+        'plotting.render(..., render_measurements=True)[2].  loop cases: hand-built Loop trees (windows on every node '
+        'incl. repeated leaves) through get_measurement_windows, reverse_inplace, cleanup.  trace cases: the same '
+        'templates built on an instrumented LoopBuilder: every call (measure / play / with_sequence enter+exit / '
+        'with_repetition enter+exit / time_reversed / new_subprogram enter+exit) with the state of every frame of every '
+        'active builder after it, compared step by step with the stack-machine model.  merge cases: '
+        'MappingPT(MappingPT(body)) with random partial parameter / measurement mappings, inner constraints or '
+        'identifier: merged or not, composed renaming, composed parameter values.  rw cases: unroll / unroll_children / '
+        'encapsulate / split_one_child / _merge_single_child on hand-built loops, windows before and after (each run '
+        'judged as two cases: model side, specification side).  flat cases: flatten_and_balance / make_compatible, '
+        'Python-side oracle only.  vol cases: volatile repetition counts updated after the build (two cases per run '
+        'as for rw).  Thorough tier adds exhaustive small scopes (template shapes, loop trees, rewrites).  Non-trivial = '
+        'at least two reported windows under at least two nested composite nodes / two nested loops, traces of >= 6 '
+        'calls, merges with both mappings non-empty, rewrites that were applied to loops with >= 2 windows, volatile '
+        'updates that changed the windows.')
 TRUSTED = [
     'Coq 8.16.1 kernel + vm_compute (no native_compute)',
     'the atoms\' own waveform construction (duration, None for an empty atom) is taken as given: the model only '
     'uses "plays" and the duration of an atomic node',
-    'sympy/numpy evaluation of the (polynomial, dyadic) begin/length/duration expressions is exact',
-    'harness: generators, PT construction from the JSON tree, exact float->rational conversion, Gallina printers',
+    'sympy/numpy evaluation of the (polynomial, dyadic) begin/length/duration/constraint expressions is exact',
+    'harness: generators, PT construction from the JSON tree, exact float->rational conversion, Gallina printers, '
+    'the LoopBuilder instrumentation (wrappers around the unchanged methods that log the call and read the stack)',
+    'Stack.events (the calls each template class performs) and Merge.mk_map are transcriptions of the '
+    '_internal_create_program methods / MappingPT.__init__, tied to the code by the trace / merge cases',
 ]
 ASSUMPTIONS = [
     'times are dyadic rationals so that float arithmetic in numpy is exact',
     'the top-level measurement mapping is total on the names visible at the root (a missing key is a KeyError)',
-    'volatile parameters are not used (volatile measurement parameters are rejected by an assert in the code)',
+    'every parameter is provided (missing parameters are property C03\'s subject)',
+    'volatile parameters occur only in repetition counts (the code refuses them anywhere else) and every volatile '
+    'count is >= 1 before and after the update',
 ]
 
 PARAMS = ['a', 'b', 'c', 'd', 'n0', 'n1']          # time-like a..d, integer-like n0,n1
@@ -479,7 +496,7 @@ def gen_cases(rng, tier, ctx):
     for i in range(n_loop):
         cases.append(g.loop_case(rng.choice([1, 2, 3])))
     # round 2 kinds
-    n_trace, n_merge, n_rw, n_flat, n_vol = (160, 120, 160, 60, 100) if tier == 'quick' else (4000, 3000, 3000, 1500, 2500)
+    n_trace, n_merge, n_rw, n_flat, n_vol = (160, 120, 110, 60, 70) if tier == 'quick' else (4000, 3000, 3000, 1500, 2500)
     for i in range(n_trace):
         c = g.prog_case(rng.choice([1, 2, 2, 3, 3] if tier == 'quick' else [1, 2, 3, 3, 4]))
         c['kind'] = 'trace'
@@ -487,7 +504,9 @@ def gen_cases(rng, tier, ctx):
     for i in range(n_merge):
         cases.append(X.gen_merge(rng, PARAMS, NMEAS, e_c, TIMES))
     for i in range(n_rw):
-        cases.append(X.gen_rw(rng, g))
+        c = X.gen_rw(rng, g)
+        cases.append(dict(c, side='corr'))
+        cases.append(dict(c, side='spec'))
     for i in range(n_flat):
         cases.append(X.gen_flat(rng, g))
     k = 0
@@ -508,14 +527,16 @@ def gen_cases(rng, tier, ctx):
         envs = [{p: F(v) for p, v in e.items()} for e in (c['env'], c['env2'])]
         if any(e_eval(ce, en) < 1 for ce in counts if e_vars(ce) & set(c['vol']) for en in envs):
             continue
-        cases.append(c)
+        cases.append(dict(c, side='corr'))
+        cases.append(dict(c, side='spec'))
         k += 1
     rws = X.enum_rw()
-    if tier == 'thorough':
-        cases.extend(rws)
-    else:
+    if tier != 'thorough':
         rng.shuffle(rws)
-        cases.extend(rws[:80])
+        rws = rws[:60]
+    for c in rws:
+        cases.append(dict(c, side='corr'))
+        cases.append(dict(c, side='spec'))
     if tier == 'thorough':
         cases.extend(_enum_small())
         cases.extend(_enum_loops())
@@ -787,7 +808,7 @@ def to_coq(case, obs):
     if kind == 'rw':
         a = obs['after']
         o = 'None' if a is None else '(Some (%s, %s))' % (g_q(a['dur']), g_windows(a['ws']))
-        return '(CRw %s %s %s %s %s)' % (X.g_rw(case['op']), g_loop(case['loop']), g_q(obs['dur0']),
+        return '(CRw %s %s %s %s %s %s)' % (vlib.gbool(case.get('side') == 'spec'), X.g_rw(case['op']), g_loop(case['loop']), g_q(obs['dur0']),
                                          g_windows(obs['ws0']), o)
     if kind == 'flat':
         return 'CPyOnly'
@@ -796,7 +817,7 @@ def to_coq(case, obs):
                         obs['trace'])
         return '(CTrace %s %s %s %s)' % (g_pt(case['pt']), g_env(case['env']), g_mm(case['mm']), tr)
     if kind == 'vol' and 'ws2' in obs:
-        return '(CVol %s %s %s %s %s)' % (g_pt(case['pt']), g_env(case['env']), g_env(case['env2']), g_mm(case['mm']),
+        return '(CVol %s %s %s %s %s %s)' % (vlib.gbool(case.get('side') == 'spec'), g_pt(case['pt']), g_env(case['env']), g_env(case['env2']), g_mm(case['mm']),
                                           g_windows(obs['ws2']))
     if case['kind'] == 'loop':
         opt = lambda w: 'None' if w is None else '(Some %s)' % g_windows(w)
@@ -888,6 +909,8 @@ def _name_len(ws):
 
 def classify(case, obs):
     kind = case['kind']
+    if kind in ('rw', 'vol') and case.get('side') != 'spec':
+        return None
     if kind == 'rw' and obs.get('after') is not None and case['op'][0] in ('unroll', 'unroll_children'):
         # known: only own windows of the unrolled loop are missing, nothing else changed
         rest = list(map(tuple, obs['ws0']))
@@ -918,7 +941,7 @@ def py_spec(case, obs):
         return 'plotting._render_loop reports other measurement windows than Loop.get_measurement_windows()'
     if 'wsp' in obs and obs['wsp'] != obs['ws']:
         return 'plotting.render(..., render_measurements=True)[2] differs from Loop.get_measurement_windows()'
-    if case['kind'] == 'vol' and 'ws2r' in obs and obs['ws2r'] != obs['ws2']:
+    if case['kind'] == 'vol' and case.get('side') == 'corr' and 'ws2r' in obs and obs['ws2r'] != obs['ws2']:
         return 'after a volatile update plotting reports other windows than Loop.get_measurement_windows()'
     if case['kind'] == 'flat':
         v = X.flat_verdict(case, obs)
@@ -1032,16 +1055,30 @@ def search_failing(ctx, broken):
 
 
 MANIFEST = {
-    'level_text': 'Proof (Coq, unbounded in tree shape, counts, ranges, nesting, mappings): for every template tree the '
-                  'windows of the program built by the modelled LoopBuilder are a permutation of the windows the '
-                  'template denotes (declaration x executions of its node, start + begin, renamed / dropped through the '
-                  'composed mappings, mirrored per execution of a reversed part); program duration = template duration; '
-                  'corollary: declarations inside their node give windows inside [0, duration]; reversal and cleanup '
-                  'of arbitrary Loop trees preserve / mirror the windows.  The model is tied to /repo by an exact '
-                  'correspondence check on generated templates and hand-built Loop trees.',
-    'level_note': 'Trusted: Coq kernel, harness, sympy/numpy evaluation of expressions, waveform construction of atoms '
-                  '(only "plays" + duration are used).  The builder is modelled in functional form (top loop + pending '
-                  'guard stack); the Python stack machine is tied to it by the correspondence check, not by proof.',
-    'technique': 'Coq proof by induction on the template tree over a functional LoopBuilder model + correspondence check',
-    'design_ref': 'DESIGN.md §5 C02, §4.5, §4.6, Appendix D3',
+    'level_text': 'Proof (Coq, unbounded in tree shape, counts, ranges, nesting, mappings): (1) for every template tree the '
+                  'windows of the program built by the modelled LoopBuilder are a permutation of the windows the template '
+                  'denotes (declaration x executions of its node, start + begin, renamed / dropped through the composed '
+                  'mappings, mirrored per execution of a reversed part); program duration = template duration; '
+                  'declarations inside their node give windows inside [0, duration]; reversal and cleanup of arbitrary '
+                  'Loop trees mirror / preserve the windows.  (2) REFINEMENT: the LoopBuilder modelled as the stack '
+                  'machine it is (frames, guards with pending windows, nested builders, enter / exit as separate steps) '
+                  'run on the call sequence of any template from any reachable state ends in the concretisation of the '
+                  'functional builder state; so (1) holds of the stack machine\'s program.  (3) the tree MappingPT\'s '
+                  'constructor really builds (nested mappings merged) plays, lasts and denotes what the tree as written '
+                  'does.  (4) unroll / unroll_children / encapsulate / split_one_child / _merge_single_child keep the '
+                  'duration and windows-after ++ dropped = windows-before; "unroll keeps the windows" is refuted (known '
+                  'finding) and proved under an executable guard.  (5) must_accept assignments are never rejected, every '
+                  'model rejection names the class of a really violated condition; a window sticking out of its node is '
+                  'accepted (witness).  (6) "windows follow a volatile count update" is refuted (known finding).  All '
+                  'models are tied to /repo by exact correspondence checks (programs, hand-built loops, step-by-step '
+                  'builder traces, constructor merges, rewrites, volatile updates).',
+    'level_note': 'Trusted: Coq kernel, harness + builder instrumentation, sympy/numpy evaluation of expressions, waveform '
+                  'construction of atoms (only "plays" + duration are used), the transcription of which calls each '
+                  'template class makes (Stack.events; checked call by call against instrumented runs).  Tested only: '
+                  'windows under flatten_and_balance / make_compatible (Python-side oracle), the positive volatile '
+                  'statement (windows inside a volatile repetition tile with the new count).  Not covered: missing '
+                  'parameters (C03), volatile counts switched to / from 0.',
+    'technique': 'Coq proofs by induction on the template tree (functional builder, refinement of the stack machine, '
+                 'mapping merge, acceptance) and on Loop trees (reversal, cleanup, rewrites) + correspondence checks',
+    'design_ref': 'DESIGN.md §5 C02, §4.5, §4.6, Appendix D3; notes/C02.md',
 }
